@@ -171,6 +171,24 @@ func rawSlice(base, n uintptr) []byte {
 	return *(*[]byte)(unsafe.Pointer(&h))
 }
 
+// Havoc copies the model's bytes for this label over the n bytes at p.
+func Havoc(p unsafe.Pointer, n uintptr, label string) {
+	buf := rawSlice(uintptr(p), n)
+	for i := range buf {
+		buf[i] = 0
+	}
+	if hx, ok := rf.Regions[label]; ok {
+		data, _ := hex.DecodeString(hx)
+		// the model is indexed by offset inside the object: p may not be at offset 0
+		off := int(havocOffset[label])
+		if off < len(data) {
+			copy(buf, data[off:])
+		}
+	}
+}
+
+var havocOffset = map[string]uintptr{}
+
 func Limit(label string, n uintptr) {
 	if r, ok := regions[label]; ok && n < r.limit {
 		r.limit = n
